@@ -221,7 +221,19 @@ func c14() int {
 		atomic.AddInt64(&transitions, int64(len(h)))
 		for pos := 0; pos <= len(h); pos++ {
 			for pk := range ops {
-				for _, ik := range []string{"", "pv-key"} {
+				for _, ik := range []string{"", "pv-key", "shared-key"} {
+					baseK, withoutK := base, without
+					if ik == "shared-key" {
+						// the real operation right after the preview carries the same idempotency key as the preview
+						if pos >= len(h) || h[pos] < 0 {
+							continue
+						}
+						baseK = append([]c14Step{}, base...)
+						baseK[pos].IK = ik
+						withoutK = c14Exec(ops, baseK)
+						atomic.AddInt64(&traces, 1)
+					}
+					base, without := baseK, withoutK
 					with := append(append(append([]c14Step{}, base[:pos]...), c14Step{Op: pk, Preview: true, IK: ik}), base[pos:]...)
 					real := append(append([]c14Step{}, base[:pos]...), c14Step{Op: pk, IK: ik})
 					rw := c14Exec(ops, with)
